@@ -89,7 +89,20 @@ class ModuleInfo(object):
         if not external and not os.environ.get('VT_NO_NORMALIZE'):
             # behaviour-preserving normalisation of the parsed tree (see normalize.py); positions are kept
             from . import normalize
-            self.tree, self.inlined_calls = normalize.normalize_tree(self.tree, lambda ident: repo.mentioned_outside(ident, path))
+            self.is_pkg = os.path.basename(path) == '__init__.py'
+
+            def imported(node):
+                # raw parse of the module of the package a ``from .x import name`` statement names (None: not one of ours)
+                try:
+                    other = self._abs_module(node)
+                    op = repo._path_of(other) if other and other != name and repo.is_internal(other) else None
+                    if op is None:
+                        return None
+                    with open(op, 'rb') as fh:
+                        return ast.parse(fh.read().decode('utf-8'), filename=op)
+                except (AnalysisError, SyntaxError, IOError, ValueError):
+                    return None
+            self.tree, self.inlined_calls = normalize.normalize_tree(self.tree, lambda ident: repo.mentioned_outside(ident, path), imported)
         if external:
             self.relpath = 'site-packages/' + name.replace('.', '/') + '.py'
         else:
